@@ -1195,7 +1195,7 @@ public:
 
       const auto OVERFLOW_MASK(UINT32_C(1) << 8 | UINT32_C(1) << 16 | UINT32_C(1) << 24);
       from += offset;
-      const auto elen {len != -1 ? len : sz}, eeii{elen - elen % 8};
+      const size_t elen {len != -1 ? static_cast<size_t>(len) : sz - offset}, eeii{elen - elen % 8};
       std::uint32_t ret{}, overflow{}, overflowtmp{};
       size_t ii{};
       for (; ii < eeii; ii += 4)
